@@ -9,11 +9,11 @@ from fractions import Fraction
 
 import numpy as np
 
-from vlib import core, engine_corr
+from vlib import closed_corr, core, engine_corr
 from vlib.core import q, unq
 
 PROPERTY = "C03"
-LEAN_MODS = ["AtomicaProofs.Properties.C03Grid", "AtomicaProofs.Properties.C03Conv"]
+LEAN_MODS = ["AtomicaProofs.Properties.C03Grid", "AtomicaProofs.Properties.C03Conv", "AtomicaProofs.Properties.C03Closed"]
 THEOREMS = [
     # conversion half: the engine computes exactly the documented rule (Spec.*)
     "Atomica.C03.convert_rate", "Atomica.C03.convert_duration", "Atomica.C03.convert_number", "Atomica.C03.convert_number_empty",
@@ -27,10 +27,37 @@ THEOREMS = [
     "Atomica.C03.grid_last_ge",
     "Atomica.C03.grid_last_first",
     "Atomica.C03.grid_prefix",
+    # closed loop: whole simulations from the specification alone (Closed.simulate)
+    "Atomica.C03.simulate_is_process",
+    "Atomica.C03.simulate_is_runFrom",
+    "Atomica.C03.closed_total",
+    "Atomica.C03.closed_nonneg",
+    "Atomica.C03.closed_jempty",
+    "Atomica.C03.closedPvs_propsNonneg",
+    "Atomica.C03.evalPars_clipped",
+    "Atomica.C03.evalPars_fixpoint",
+    "Atomica.C03.evalPars_fixpoint_fn",
+    "Atomica.C03.evalPars_data",
+    "Atomica.C03.evalPars_static",
+    "Atomica.C03.evalCharacs_fixpoint",
+    "Atomica.C03.simulateN_prefix",
+    "Atomica.C03.simulateN_length",
+    "Atomica.C03.simulateN_none_mono",
 ]
-TRUSTED = ["float rounding of start + k*dt vs numpy.linspace (compared to 1e-9 absolute)"]
+TRUSTED = [
+    "float rounding of start + k*dt vs numpy.linspace (compared to 1e-9 absolute)",
+    "closed loop: extraction of the specification from the built Model + ParameterSet (vlib/closed_corr.extract: dependency resolution as Parameter.set_fcn / Population.get_variable did it, AST serialisation of props/c19.py)",
+    "closed loop: float tvec vs exact start + i*dt (C03 grid half), float product y_factor*meta_y_factor, tolerance 1e-6 as the exact rational 1/10^6",
+    "closed loop: exact rationals are cut off when a stock needs more than closed_corr.BUDGET_BITS bits; the computed prefix is compared (simulateN_prefix)",
+]
 RULE = "engine: generated models, every step replayed through one exact model step (see C01); grid: cross product of start/end pairs x step sizes (incl. non-representable and non-dividing); non-trivial = span not an exact float multiple of dt or dt not a dyadic rational"
-EXPECTED_BRANCHES = ["grid.divides", "grid.nondividing", "grid.dt_inexact", "rescale.active", "has.transfer", "has.source", "param.timevarying", "step.compared"]
+RULE = RULE + "; " + (
+"closed loop: small generated models (<= 3 ordinary compartments per population, <= 2 populations, <= 11 time points, junctions / residual junctions / timed "
+        "compartments / sources / sinks / transfers / aggregations, every unit type, functions of compartments, ratio characteristics, parameters and time, limits and scale factors); "
+        "the real Model is processed and every stock row and link flow of every index is compared with csim (rtol 1e-8 + dust 1e-11 x people); non-trivial = a parameter of the run is "
+        "state-dependent, aggregated, clipped, scaled or time-varying, or people move between populations")
+EXPECTED_BRANCHES = ["grid.divides", "grid.nondividing", "grid.dt_inexact", "rescale.active", "has.transfer", "has.source", "param.timevarying", "step.compared",
+                     "closed.compared_models", "fn.dynamic", "fn.precompute", "fn.of_compartment", "fn.of_characteristic", "fn.of_ratio_characteristic", "fn.of_parameter", "fn.limits", "data.limits", "par.scaled", "par.timescale", "par.several_links", "link.several_parameters", "data.timevarying", "units.fraction", "units.duration", "units.number", "units.proportion", "has.transfer", "has.timed", "has.junction", "has.resjunction", "has.source", "rescale.active"]
 
 STARTS_ENDS = [(2000, 2035), (2000, 2001), (2000, 2000.5), (1990, 2030), (2010.5, 2020), (2000, 2040), (2015, 2018), (2000.25, 2010.75), (2000, 2100), (1999, 2000.1)]
 DTS = [1.0, 0.5, 0.25, 0.2, 0.1, 1 / 12, 1 / 52, 1 / 365, 0.3, 0.7, 0.05, 0.125, 1 / 3, 0.4, 0.15, 2.0, 7 / 365, 0.6, 1 / 24, 0.35, 0.01, 1 / 6, 0.9, 1.5, 0.45]
@@ -164,12 +191,17 @@ def run(ctx):
     run_settings_ops(ctx)
     # conversion half: mode B on generated models (stage "resolve": parameter value -> per-step fraction -> people) + documented-conversion oracle
     engine_corr.run_stream(ctx, PROPERTY, ctx.n(60, 2000), focus=lambda r: {"functions": r.random() < 0.5, **({"npops": r.choice([2, 3]), "aggregation": True} if r.random() < 0.35 else {})})
+    # closed loop: whole trajectories from the specification alone (no value of the implementation fed in)
+    closed_corr.closed_selfcheck(ctx, n=ctx.n(2, 6))
+    closed_corr.run_closed(ctx, PROPERTY, ctx.n(60, 2000))
 
 
 def replay(ctx, data):
     import atomica as at
 
-    c = data["replay"]["case"]
+    c = (data.get("replay") or {}).get("case") or (data.get("broken") or [{}])[0].get("case")
+    if isinstance(c, dict) and c.get("closed"):
+        return closed_corr.replay_case(c)
     tv = at.ProjectSettings(sim_start=c["start"], sim_end=c["end"], sim_dt=c["dt"]).tvec
     print("impl:", len(tv), tv[:3], tv[-1], "spacing", np.diff(tv)[:1])
     print("model:", core.drive([f"grid {q(c['start'])} {q(c['end'])} {q(c['dt'])}"]))
